@@ -177,6 +177,17 @@ int main(void)
 	    int e = errno;
 	    memset(ex, 0xEE, l); free(ex);
 	    render(o, rc, e, NULL, 0);
+	} else if (!strcmp(w[0], "SL") && n == 3) {
+	    /* SL <len> <answers>: a send whose claimed length exceeds the maximum (up to and beyond 2^32, 2^63): it must be
+	       refused on its size alone; the buffer holds 64 KiB so that a wrongly accepted length reads defined bytes */
+	    size_t l = strtoull(w[1], NULL, 10);
+	    static uint8_t big[65536];
+	    memset(big, 0x5a, sizeof(big));
+	    parse_ans(w[2]);
+	    errno = 0;
+	    int rc = l > 65535 ? FR(send)(sock, big, l) : -2;
+	    int e = errno;
+	    render(o, rc, e, NULL, 0);
 	} else if (!strcmp(w[0], "R") && n == 3) {
 	    size_t cap = strtoul(w[1], NULL, 10);
 	    uint8_t *buf = malloc(cap ? cap : 1);
